@@ -31,13 +31,13 @@ Proof. split; [split; [constructor|split; [constructor|intros f []]]|intros f []
 Lemma overlap_refuted :
   exists c pre tick0 t0 evs,
     recheck c = false /\ 0 <= t0 < TBOUND /\ PreOK pre tick0 /\ Forall valid_ev evs /\
-    exists l, In l (lands (run c (init c pre tick0 t0) evs)) /\ l_clean l = true /\ l_nd l = true /\
+    exists l, In l (lands (run c (init c pre tick0 t0) evs)) /\ l_life l = 1%nat /\ l_clean l = true /\ l_nd l = true /\
               l_file l <> period_file c t0 (l_t l).
 Proof.
   exists (ex_cfg false None), [], 0%N, 30, f16_evs.
   split; [reflexivity|split; [unfold TBOUND; lia|split; [apply preok_nil|split; [apply f16_valid|]]]].
-  exists {| l_file := "app.1970-01-01-00-01.log"; l_t := 140; l_buf := [99%N]; l_tid := 2; l_clean := true; l_nd := true |}.
-  split; [vm_compute; auto|split; [reflexivity|split; [reflexivity|]]]. vm_compute. discriminate.
+  exists {| l_file := "app.1970-01-01-00-01.log"; l_t := 140; l_buf := [99%N]; l_tid := 2; l_clean := true; l_nd := true; l_life := 1%nat |}.
+  split; [vm_compute; auto|split; [reflexivity|split; [reflexivity|split; [reflexivity|]]]]. vm_compute. discriminate.
 Qed.
 
 (** the same schedule with the re-check: the hypothesis of the landing theorem holds although rotations
@@ -45,7 +45,7 @@ Qed.
 Example overlap_with_recheck :
   let s := run (ex_cfg true None) (init (ex_cfg true None) [] 0%N 30) f16_evs in
   overlapped s = true /\
-  In {| l_file := "app.1970-01-01-00-02.log"; l_t := 140; l_buf := [99%N]; l_tid := 2; l_clean := true; l_nd := true |} (lands s) /\
+  In {| l_file := "app.1970-01-01-00-02.log"; l_t := 140; l_buf := [99%N]; l_tid := 2; l_clean := true; l_nd := true; l_life := 1%nat |} (lands s) /\
   period_file (ex_cfg true None) 30 140 = "app.1970-01-01-00-02.log".
 Proof. vm_compute. auto. Qed.
 
@@ -150,3 +150,68 @@ Example backwards_step_example :
   let s := run c (init c [] 0%N 30) [Start 0 70 [97%N]; Step 0; Step 0; Step 0; Step 0; Step 0; Start 1 65 [98%N]] in
   (exists b g, pcs s 1%nat = Some (PLoad 65 b g)) /\ In 70 (decided s) /\ rots (step c s (Step 1)) = rots s.
 Proof. vm_compute. split; eauto. Qed.
+
+(** * Restarts, a directory that starts above the limit, foreign files, the end of the time crate's range *)
+
+(** two lifetimes in the same minute-1 period: the second appender opens the existing file for append, the file of
+    minute 1 ends up with both lifetimes' buffers in order (non-vacuity of C16_lands_in_period_across_restarts) *)
+Example restart_example :
+  let c := ex_cfg true None in
+  let s := run_lives (blank [] 0%N) [(c, 30, [(70, [1%N])]); (c, 75, [(80, [2%N]); (130, [3%N])])] in
+  stored_in s "app.1970-01-01-00-01.log" = [(70, [1%N]); (80, [2%N])] /\
+  stored_in s "app.1970-01-01-00-02.log" = [(130, [3%N])] /\
+  map fname (dir s) = ["app.1970-01-01-00-00.log"; "app.1970-01-01-00-01.log"; "app.1970-01-01-00-02.log"] /\
+  map l_life (lands s) = [2%nat; 2%nat; 1%nat] /\ life s = 2%nat.
+Proof. vm_compute. auto. Qed.
+
+Definition ex_pre : list file :=
+  [{| fname := "app.1970-01-01-00-00.log"; created := 0%N; base := [9%N]; landed := [] |};
+   {| fname := "notes.txt"; created := 1%N; base := [8%N]; landed := [] |};
+   {| fname := "app.1970-01-01-00-01.log"; created := 2%N; base := [7%N]; landed := [] |};
+   {| fname := "app.1970-01-01-00-02.log"; created := 3%N; base := [6%N]; landed := [] |};
+   {| fname := "app.1970-01-01-00-03.log"; created := 4%N; base := [5%N]; landed := [] |}].
+
+Lemma ex_pre_ok : PreOK ex_pre 5%N.
+Proof.
+  split; [split; [|split]|].
+  - repeat constructor; simpl; intuition discriminate.
+  - repeat constructor; simpl; intuition discriminate.
+  - intros f Hf. simpl in Hf. repeat (destruct Hf as [<-|Hf]; [simpl; lia|]). destruct Hf.
+  - intros f Hf. simpl in Hf. repeat (destruct Hf as [<-|Hf]; [reflexivity|]). destruct Hf.
+Qed.
+
+(** an appender with limit 2 restarted (in minute 5) over 4 of its own older files and a foreign one: nothing is
+    pruned at construction (5 log files), the first rotation removes exactly 5 - (2-1) = 4 - the oldest - and leaves
+    2; the foreign file is untouched (non-vacuity of C16_prune for a lifetime that starts above the limit,
+    C16_prune_exact, C16_prune_only_own_files) *)
+Example above_limit_example :
+  let c := ex_cfg true (Some 2%nat) in
+  let s0 := init c ex_pre 5%N 300 in
+  let s1 := run_x c s0 [(310, [1%N])] in
+  let s2 := run_x c s0 [(310, [1%N]); (360, [2%N])] in
+  count_logs c (dir s0) = 5%nat /\ count_logs c (dir s1) = 5%nat /\ refreshed s1 = false /\
+  refreshed s2 = true /\ count_logs c (dir s2) = 2%nat /\
+  map fname (dir s2) = ["notes.txt"; "app.1970-01-01-00-05.log"; "app.1970-01-01-00-06.log"] /\
+  map fname (grave s2) = ["app.1970-01-01-00-00.log"; "app.1970-01-01-00-01.log"; "app.1970-01-01-00-02.log"; "app.1970-01-01-00-03.log"] /\
+  In {| fname := "notes.txt"; created := 1%N; base := [8%N]; landed := [] |} (dir s2).
+Proof. vm_compute. intuition. Qed.
+
+(** the construction time's file already exists: opened for append, its bytes stay in front *)
+Example restart_appends_example :
+  let c := ex_cfg true None in
+  let s := run_x c (init c ex_pre 5%N 130) [(140, [1%N])] in
+  map (fun f => (fname f, content f)) (filter (has_name "app.1970-01-01-00-02.log") (dir s)) =
+    [("app.1970-01-01-00-02.log", [6%N; 1%N])] /\ List.length (dir s) = 5%nat.
+Proof. vm_compute. auto. Qed.
+
+(** the end of the [time] crate's range: next_date is undefined from DT_MAX + 1 - period on; the constructor and a
+    rotation-due write panic there and touch nothing *)
+Example out_of_range_example :
+  next_ok Minutely (DT_MAX - 60) = true /\ next_ok Minutely (DT_MAX - 59) = false /\
+  next_ok Daily (DT_MAX - 86400) = true /\ next_ok Daily (DT_MAX - 86399) = false /\ next_ok Never (DT_MAX + 1000) = true /\
+  let c := ex_cfg true None in
+  let s := init c [] 0%N (DT_MAX - 100) in
+  let s' := write_x c s (DT_MAX - 30) [1%N] in
+  panics s = 0%nat /\ panics s' = 1%nat /\ dir s' = dir s /\ next s' = next s /\ lands s' = [] /\
+  panics (init c [] 0%N (DT_MAX - 30)) = 1%nat /\ dir (init c [] 0%N (DT_MAX - 30)) = [].
+Proof. vm_compute. intuition. Qed.
